@@ -29,6 +29,7 @@ SecResponseBodyMimeType text/plain
 SecRequestBodyLimit 400
 SecRequestBodyInMemoryLimit 16
 SecResponseBodyLimit 300
+SecArgumentsLimit 40
 SecAuditEngine On
 SecAuditLogType verifmem
 SecAuditLogParts ABCFHKZ
@@ -80,7 +81,9 @@ var c05Steers = []string{"cap", "setx", "ce_do", "c_audoff", "c_parts", "c_rba",
 	"d1", "sk1", "ska1", "al1", "alr1", "alp1", "t", "u", "d2", "sk2", "ska2", "d3", "al3", "d4"}
 
 type c05Tx struct {
-	Steer      []string `json:"steer"`
+	Steer []string `json:"steer"`
+	// Extra are further query arguments with names unique to this transaction.
+	Extra      []string `json:"extra,omitempty"`
 	Body       string   `json:"body"`
 	BodyJSON   bool     `json:"body_json,omitempty"`
 	RespBody   string   `json:"resp_body"`
@@ -134,6 +137,12 @@ func c05GenTx(r gen.R, focus string, probe bool) c05Tx {
 	t.RespBody = gen.Pick(r, []string{"", "ok", "a leak here", strings.Repeat("z", 350)})
 	t.RespHeader = gen.Chance(r, 0.5)
 	if !probe {
+		ne := r.IntN(22)
+		for i := 0; i < ne; i++ {
+			t.Extra = append(t.Extra, fmt.Sprintf("n%d_%d", c05Counter(), i))
+		}
+	}
+	if !probe {
 		switch r.IntN(8) {
 		case 0:
 			t.StopAfter = 1 + r.IntN(7)
@@ -182,6 +191,9 @@ func c05Run(waf coraza.WAF, t *c05Tx, closeIt bool) (*c05Outcome, types.Transact
 				v = "abc"
 			}
 			q += s + "=" + v
+		}
+		for _, e := range t.Extra {
+			q += "&" + e + "=z"
 		}
 		tx.ProcessURI("/probe?"+q, "POST", "HTTP/1.1")
 		tx.AddRequestHeader("Host", "h.example")
@@ -392,14 +404,23 @@ func c05Judge(w *fw.W, c *c05Case) {
 			focus += "+abandoned"
 		}
 	}
-	// readers of closed transactions must not yield data
-	for _, rd := range readers {
-		w.Count("stale_reader_checks", 1)
-		b, _ := io.ReadAll(rd)
-		if len(b) > 0 {
-			w.Violation("closed-transaction-reader-yields-data", "stale reader", c, "", string(b), fmt.Sprintf("%d bytes read from a reader of a closed transaction", len(b)))
-			return
+	// readers of closed transactions must not yield data: checked after the probe below as well, when the
+	// recycled object holds the probe's body
+	checkReaders := func(when string) bool {
+		for _, rd := range readers {
+			w.Count("stale_reader_checks", 1)
+			var b []byte
+			pi := fw.Guard(func() { b, _ = io.ReadAll(rd) })
+			if pi != nil {
+				w.Violation("closed-transaction-reader-panics:"+when, "stale reader", c, nil, pi, pi.Value)
+				return false
+			}
+			if len(b) > 0 {
+				w.Violation("closed-transaction-reader-yields-data:"+when, "stale reader", c, "", string(b), fmt.Sprintf("%d bytes read from a reader of a closed transaction (%s)", len(b), when))
+				return false
+			}
 		}
+		return true
 	}
 	// two transactions alive at the same time must be distinct objects
 	closedTwice := false
@@ -423,7 +444,13 @@ func c05Judge(w *fw.W, c *c05Case) {
 		}
 	}
 	want, _, _ := c05Run(fresh, &c.Probe, true)
-	got, ptx, _ := c05Run(used, &c.Probe, true)
+	// the probe is left open while the stale readers are read: the recycled object then holds the probe's body
+	got, ptx, _ := c05Run(used, &c.Probe, false)
+	okReaders := checkReaders("while-successor-open")
+	fw.Guard(func() { ptx.Close() })
+	if !okReaders || !checkReaders("after-successor-closed") {
+		return
+	}
 	w.Eval(1)
 	w.Count("pairs", 1)
 	reused := lastTx != nil && ptx == lastTx
